@@ -17,8 +17,12 @@ Definition V := N.
 (* what the harness saw, flattened in the order it happened *)
 Inductive titem :=
 | TSnap                                             (* a Refresh has taken its snapshot and is blocked at the service *)
-| TPoll (ans : list (name * N * resp V)) (ok : bool)    (* ... the service answered; the poll finished (ok = no error) *)
-| TRefresh (ans : list (name * N * resp V)) (ok : bool) (* a whole Refresh; ans: name, the version the client said it has, the answer *)
+| TPoll (ans : list (name * N * resp V)) (cls : N) (nw : N) (wfail : bool)
+       (* ... the service answered; the poll finished.  cls = what Refresh returned: 0 no error, 1 the poll
+          failed, 2 the cache's write error.  nw = Cache.Write calls made by the apply phase; wfail = the
+          cache (an input) refused that write *)
+| TRefresh (ans : list (name * N * resp V)) (cls : N) (nw : N) (wfail : bool)
+       (* a whole Refresh; ans: name, the version the client said it has, the answer *)
 | TNew (n : name) (closer : bool) (look : option (option (N * V)))
        (* NewUpdater called; look: None = no request sent, Some None = request failed, Some (Some (v,b)) = answered *)
 | TNewDone (ok : bool)                              (* NewUpdater returned *)
@@ -58,11 +62,17 @@ Definition fail (d : drv) : drv := D (ds d) (dsnap d) (dnew d) false.
 
 Definition req_beq (a b : name * N) : bool := bytes_beq (fst a) (fst b) && N.eqb (snd a) (snd b).
 (* the poll asks for exactly the names the model's snapshot has, each with the version the model's store holds *)
-Definition do_poll (d : drv) (snap : list snap_entry) (ans : list (name * N * resp V)) (ok : bool) : drv :=
+Definition do_poll (d : drv) (snap : list snap_entry) (ans : list (name * N * resp V)) (cls nw : N) (wfail : bool) : drv :=
   if negb (list_beq req_beq (requests snap) (map fst ans)) then fail d
   else match poll snap (ans_fun ans) with
-       | None => if ok then fail d else D (ds d) None (dnew d) (dok d)
-       | Some ups => if ok then D (fst (step (ds d) (EApply ups))) None (dnew d) (dok d) else fail d
+       | None => if (cls =? 1)%N && (nw =? 0)%N then D (ds d) None (dnew d) (dok d) else fail d
+       | Some ups =>
+           (* installs + notifications happen whatever the cache answers; the flush is attempted once
+              iff there was something to apply; its failure is what Refresh reports *)
+           let '(s', o) := step (ds d) (EApply ups (negb wfail)) in
+           let want_nw := N.of_nat (length (snd (apply_updates (st (ds d)) ups))) in
+           let want_cls := match o with OOk => 0%N | _ => 2%N end in
+           if (cls =? want_cls)%N && (nw =? want_nw)%N then D s' None (dnew d) (dok d) else fail d
        end.
 
 Definition is_out_ok (o : out) : bool := match o with OOk => true | _ => false end.
@@ -71,8 +81,8 @@ Definition titem_step (d : drv) (t : titem) : drv :=
   let s := ds d in
   match t with
   | TSnap => D s (Some (snapshot (st s) 0%Z)) (dnew d) (dok d)
-  | TPoll ans ok => match dsnap d with Some snap => do_poll d snap ans ok | None => fail d end
-  | TRefresh ans ok => do_poll d (snapshot (st s) 0%Z) ans ok
+  | TPoll ans cls nw wf => match dsnap d with Some snap => do_poll d snap ans cls nw wf | None => fail d end
+  | TRefresh ans cls nw wf => do_poll d (snapshot (st s) 0%Z) ans cls nw wf
   | TNew n cl look =>
       let unknown := negb (known (st s) n) in
       let wants := unknown && allow (st s) in
